@@ -11,6 +11,7 @@ from . import env
 from .case import Case, jsonable
 
 NSHARDS = {'quick': 12, 'thorough': 16}
+PROBE = {}
 
 
 def load_driver(prop):
@@ -48,6 +49,10 @@ def worker_main(argv):
     if hasattr(driver, 'setup_worker'):
         driver.setup_worker(tier)
     t0 = time.time()
+    probing = False
+    if shard == 0:
+        from . import probe
+        probing = probe.start(env.REPO)
     with open(outfile, 'w') as out:
         for idx in range(shard, n_cases, nshards):
             if time.time() - t0 > budget:
@@ -58,6 +63,8 @@ def worker_main(argv):
             out.flush()
         if hasattr(driver, 'worker_summary'):
             out.write(json.dumps({'prop': prop, 'status': 'summary', 'summary': jsonable(driver.worker_summary())}) + '\n')
+        if probing:
+            out.write(json.dumps({'prop': prop, 'status': 'probe', 'lines': probe.stop()}) + '\n')
     return 0
 
 
@@ -173,6 +180,8 @@ def main(argv=None):
                         continue
                     if r.get('status') == 'summary':
                         summaries.append(r['summary'])
+                    elif r.get('status') == 'probe':
+                        PROBE.update(r.get('lines') or {})
                     else:
                         records.append(r)
         shutil.rmtree(tmpd, ignore_errors=True)
@@ -269,6 +278,21 @@ def finish(driver, prop, tier, base_seed, records, summaries, known, wall):
     }
     if hasattr(driver, 'merge_summaries'):
         cov['summary'] = jsonable(driver.merge_summaries(summaries))
+    if PROBE:
+        try:
+            from . import probe
+            props = [json.loads(l) for l in open(os.path.join(env.VERIF, 'properties.jsonl'))]
+            me = [p for p in props if p['id'] == prop][0]
+            rep = probe.anchor_report(me, PROBE, env.REPO)
+            cov['anchor_lines'] = rep
+            cov['anchor_lines_note'] = 'lines of the property\'s anchor ranges executed by the workload of shard 0 (line numbers of the given anchors; the fix commits shifted some ranges by a few lines)'
+            # gate: shard 0 sees 1/n of the cases and the given line numbers have drifted by a few lines, so single ranges may legitimately show 0;
+            # the verdict is inconclusive only if the workload executed NONE of the property's mechanism lines
+            cov['anchor_ranges_unreached_in_shard0'] = ['%s:%s' % (a['file'], a['lines']) for a in rep if a['executable'] > 0 and a['executed'] == 0]
+            if rep and sum(a['executed'] for a in rep) == 0:
+                reasons.append('none of the anchor mechanism lines was executed by the workload')
+        except Exception as e:
+            cov['anchor_lines_error'] = str(e)[:200]
     ev = {'property_id': prop, 'tier': tier, 'seed': base_seed, 'level': 'exploration', 'coverage': cov,
           'assumptions': list(getattr(driver, 'ASSUMPTIONS', [])), 'wall_s': round(wall, 2),
           'violations': len(violating)}
